@@ -388,8 +388,9 @@ bool Directory::move(const String& from, const String& to)
 		return true;
 	if(errno == EXDEV) // different file systems: copy and del
 	{
-		copy(from, dst);
-		remove(from);
+		if(!copy(from, dst))
+			return false; // keep the source: it is the only complete copy
+		return remove(from);
 	}
 	return false;
 }
